@@ -105,7 +105,8 @@ def numeral_queries(scratch, pid):
     info, rules = _rules(scratch)
     q = rx.Q()
     w = z3.String("w")
-    NUM = z3.Concat(z3.Option(z3.Re("-")), z3.Plus(rx.DIGIT), z3.Option(z3.Concat(z3.Re("."), z3.Plus(rx.DIGIT))))
+    # integers with optional sign, unsigned decimals (negative decimals: recorded finding negative-decimal-literal)
+    NUM = z3.Union(z3.Concat(z3.Option(z3.Re("-")), z3.Plus(rx.DIGIT)), z3.Concat(z3.Plus(rx.DIGIT), z3.Re("."), z3.Plus(rx.DIGIT)))
     names = [r[0] for r in rules]
     out = []
     bad = None
@@ -119,7 +120,7 @@ def numeral_queries(scratch, pid):
     ans, model = q.check(f"{pid}.rx/numeral/t_ID", z3.InRe(w, NUM), z3.Length(w) <= 20, z3.Not(z3.InRe(w, z)), model_of=[w])
     wit, wm = q.check(f"{pid}.rx/numeral/witness", z3.InRe(w, NUM), z3.Length(w) == 19, z3.InRe(w, z), model_of=[w])
     oid = f"{pid}.rx/numeral-is-one-ID"
-    bounds = "integer and decimal numerals -?[0-9]+(\\.[0-9]+)? of length <= 20: no earlier rule matches a prefix, t_ID matches the whole word"
+    bounds = "numerals -?[0-9]+ and [0-9]+\\.[0-9]+ of length <= 20: no earlier rule matches a prefix, t_ID matches the whole word"
     n = len(q.log)
     if bad is None and ans == "unsat" and wit == "sat":
         out.append(rec(oid, "discharged", q, bounds, witness=wm, _n=n))
